@@ -125,6 +125,22 @@ class Forwarder:
     def trace(self, frame, event, arg):
         return self._handle(frame, event, arg)
 
+    def call_thread(self, func, *args):
+        """Run func(*args) in a fresh thread under the forwarding tracer (the stack below the program is
+        only threading's bootstrap frames, not the harness)."""
+        def body():
+            try:
+                self.run.result = func(*args)
+            except BaseException as e:
+                self.run.exc = e
+        oldt = threading.gettrace()
+        threading.settrace(self.trace)
+        try:
+            _in_thread(body)
+        finally:
+            threading.settrace(oldt)
+        return self.run
+
     def call(self, func, *args):
         """Run func(*args) in the current thread under the forwarding tracer."""
         old = sys.gettrace()
@@ -140,6 +156,13 @@ class Forwarder:
             sys.settrace(old)
             threading.settrace(oldt)
         return self.run
+
+
+def _in_thread(fn):
+    """Run fn() in a fresh thread (shallow, harness-free call stack) and wait for it."""
+    t = threading.Thread(target=fn, name='host-main')
+    t.start()
+    t.join()
 
 
 def run_installed(handler, func, *args):
